@@ -21,6 +21,8 @@ import (
 	"os"
 	"strconv"
 
+	"istio.io/istio/pilot/pkg/features"
+	"istio.io/istio/pkg/security"
 	_ "verifharness/internal/quiet"
 	"verifharness/internal/wire"
 )
@@ -30,6 +32,7 @@ func main() {
 		fmt.Fprintln(os.Stderr, "usage: c11 gen|exec|oracle ...")
 		os.Exit(2)
 	}
+	pinFeatures()
 	switch os.Args[1] {
 	case "gen":
 		seed, _ := strconv.ParseUint(os.Args[3], 10, 64)
@@ -41,6 +44,10 @@ func main() {
 			genParse(seed, n, os.Args[5])
 		case "sds":
 			genSDS(seed, n, os.Args[5])
+		case "stream":
+			genStream(seed, n, os.Args[5])
+		case "refs":
+			genRefs(seed, n, os.Args[5])
 		default:
 			os.Exit(2)
 		}
@@ -66,6 +73,10 @@ func newApplier(stream string) applier {
 		return &parseSUT{}
 	case "sds":
 		return &sdsSUT{}
+	case "stream":
+		return &streamSUT{}
+	case "refs":
+		return &refsSUT{}
 	}
 	fmt.Fprintln(os.Stderr, "unknown stream", stream)
 	os.Exit(2)
@@ -90,4 +101,17 @@ func execOps(stream, in, outp string) {
 		out.Line(safeApply(a, f))
 		out.Flush()
 	}
+}
+
+// pinFeatures fixes every environment-derived istio feature flag that changes what the streams print, so
+// that the caller's environment (UNSAFE_PILOT_ENABLE_RUNTIME_ASSERTIONS, PILOT_ENABLE_REMOTE_CREDENTIALS_CONTROLLER,
+// XDS_AUTH, XDS_AUTH_PLAINTEXT, PILOT_ENABLE_XDS_IDENTITY_CHECK, PILOT_SCOPE_GATEWAY_TO_NAMESPACE) cannot
+// influence a run; ops that exercise a flag set it explicitly.
+func pinFeatures() {
+	features.EnableUnsafeAssertions = false
+	features.EnableRemoteCredentialsController = true
+	features.XDSAuth = true
+	features.EnableXDSIdentityCheck = true
+	features.ScopeGatewayToNamespace = false
+	security.AuthPlaintext = false
 }
